@@ -32,7 +32,11 @@ ImZ == <<"imag", Z>>
 AbsX == <<"absolute", X>>
 SumXY == <<"add", X, Y>>
 
-FloatLikes == {ReZ, AbsX, SumXY}
+AbsZ == <<"absolute", Z>>
+AbsZW == <<"absolute", <<"multiply", Z, W>>>>
+\* real-valued operations that a constant may be attached to; the moduli of complex values are the likes that the
+\* package does NOT normalise away (normalize_like keeps absolute of a complex operand)
+FloatLikes == {ReZ, AbsX, SumXY, AbsZ, AbsZW, ImZ}
 Vals == {"2", "0.5"}
 AttachTerms ==
      UNION {{<<"multiply", Num(v, L), L>>, <<"multiply", L, Num(v, L)>>, <<"subtract", Num(v, L), <<"negative", L>>>>,
